@@ -163,20 +163,24 @@ def observe(prog):
     opset modules, to_function). If the program has `prebuild_outs`, the same Vars are first built into
     another model with those outputs (multi-build history). Returns dict(model, error, stage, spies)."""
     out = {"model": None, "error": None, "stage": None, "spies": None}
-    try:
-        from spox import build
-
-        with warnings.catch_warnings():
-            warnings.simplefilter("ignore")
-            R = L.Realiser()
-            ins, outs = R.realise(prog)
-            pre = [o for o in prog.get("prebuild_outs", []) if o in R.env]
-            if pre:
-                build(ins, {f"pre{i}": R.env[o] for i, o in enumerate(pre)})
-    except Exception as e:  # noqa: BLE001
-        out.update(error=e, stage="construct")
-        return out
     with Spies() as sp:
+        try:
+            from spox import build
+
+            with warnings.catch_warnings():
+                warnings.simplefilter("ignore")
+                R = L.Realiser()
+                ins, outs = R.realise(prog)
+                pre = [o for o in prog.get("prebuild_outs", []) if o in R.env]
+                if pre:
+                    build(ins, {f"pre{i}": R.env[o] for i, o in enumerate(pre)})
+        except Exception as e:  # noqa: BLE001
+            out.update(error=e, stage="construct")
+            return out
+        # function graphs are compiled once and cached: keep what the earlier build showed of them,
+        # observe the adaptation of the final build only
+        sp.earlier_roots = list(sp.roots)
+        sp.roots, sp.abe, sp.an, sp.ai, sp.stack = [], [], {}, {}, []
         out["spies"] = sp
         try:
             with warnings.catch_warnings():
@@ -197,7 +201,7 @@ def to_model_input(sp: Spies):
     ids: dict[int, int] = {}
     nodes_by_id: dict[int, object] = {}
     notes: list[str] = []
-    func_roots = {id(r["graph"]): r for r in sp.roots[1:]}
+    func_roots = {id(r["graph"]): r for r in list(getattr(sp, "earlier_roots", [])) + sp.roots[1:]}
 
     def nid(node):
         if id(node) not in ids:
@@ -639,13 +643,29 @@ def witness_programs():
 def gen_programs(ck):
     rng = ck.rng
     progs = []
-    n = ck.pick(900, 8000)
+    n = ck.pick(550, 6000)
     for i in range(n):
         r = rng.random()
         clean = r < 0.85
         g = L.Gen(rng, clean=clean, size=rng.randrange(2, ck.pick(12, 18)), max_depth=rng.randrange(0, 4),
                   allow_dyn=rng.random() < 0.35)
-        progs.append(("clean" if clean else "dirty", g.program()))
+        prog = g.program()
+        progs.append(("clean" if clean else "dirty", prog))
+        has_func = any(st["op"] == "func" for st, *_ in L.walk(prog["nodes"]))
+        if clean and (has_func or rng.random() < 0.08):
+            # multi-build history: the same Vars (function applications included) are first built into
+            # a model with the original outputs, then into one whose maximum is raised by v21 identities
+            p2 = copy.deepcopy(prog)
+            outs2 = []
+            for k, o in enumerate(p2["outs"]):
+                nid = f"h{i}_{k}"
+                p2["nodes"].append({"id": nid, "op": "identity", "mv": 21, "args": [o]})
+                outs2.append(nid)
+            p2["prebuild_outs"] = list(p2["outs"])
+            p2["outs"] = outs2
+            L.pin_bodies(p2)
+            L.align_unknown_rank(p2)
+            progs.append(("history", p2))
     return progs
 
 
@@ -681,6 +701,15 @@ def targeted_programs():
         P.append({"nodes": [{"id": "a", "op": "inline", "model": md, "args": ["x"]}, st("b", "relu", 17, ["a"])], "outs": ["b"]})
         P.append({"nodes": [{"id": "a", "op": "inline", "model": md, "args": ["x"]}, st("b", "identity", 19, ["a"]),
                             {"id": "a2", "op": "inline", "model": md, "args": ["b"]}], "outs": ["a2"]})
+    P.append({"nodes": [{"id": "a", "op": "inline", "model": {"kind": "if_ml", "mv": 17, "mlv": 3}, "args": ["x"]}], "outs": ["a"]})
+    P.append({"nodes": [{"id": "a", "op": "inline", "model": {"kind": "if_ml", "mv": 19, "mlv": 5}, "args": ["x"]},
+                        {"id": "f", "op": "func", "name": "fdom2", "domain": "verif.other", "params": ["p"], "args": ["a"],
+                         "body": {"nodes": [st("q", "rmean", 17, ["p"], axis=0)], "out": "q"}},
+                        st("g", "identity", 21, ["f"])], "outs": ["g", "f"]})
+    # the same function application built twice, in models with different maxima
+    P.append({"nodes": [{"id": "f", "op": "func", "name": "ftwice", "params": ["p"], "args": ["x"],
+                         "body": {"nodes": [st("q", "rmean", 17, ["p"], axis=0), st("r", "rmax", 18, ["q"], axis=1)], "out": "r"}},
+                        st("g", "identity", 21, ["f"])], "outs": ["g"], "prebuild_outs": ["f"]})
     # ml mixes
     P.append({"nodes": [{"id": "a", "op": "ml_label", "mv": 3, "dv": 17, "args": ["x"]},
                         {"id": "b", "op": "ml_label", "mv": 4, "dv": 19, "args": ["y"]},
